@@ -187,7 +187,17 @@ fn judge(rep: &mut Rep, cnt: &mut Counters, cla: u8, ins: u8, p1: u8, p2: u8, da
         0 => via_view(apdu),
         1 => via_command::<1024>(apdu),
         2 => via_command::<256>(apdu),
-        _ => via_command::<7609>(apdu),
+        3 => via_command::<7609>(apdu),
+        // command buffers of unusual capacity (tiny, exactly fitting, beyond the message limit)
+        4 => via_command::<0>(apdu),
+        5 => via_command::<1>(apdu),
+        6 => via_command::<31>(apdu),
+        7 => via_command::<63>(apdu),
+        8 => via_command::<64>(apdu),
+        9 => via_command::<65>(apdu),
+        10 => via_command::<97>(apdu),
+        11 => via_command::<320>(apdu),
+        _ => via_command::<70000>(apdu),
     }) {
         Ok(g) => g,
         Err(p) => {
@@ -356,6 +366,32 @@ pub fn run(rep: &mut Rep) {
                 }
                 rep.input_hash(crate::rng::mix(case ^ 0xc08));
                 rep.sample(|| format!("cla={:#04x} ins={:#04x} p1={:#04x} x {} lengths x 5 data[64] modes x 4 encodings x 4 entry points", cla, ins, p1, xlens.len()));
+            }
+        }
+    }
+    // ---- (2b) unusual command-buffer capacities and data beyond the CTAP message limit
+    let mut rng2 = Rng::derive(seed, "c08-caps", rep.shard);
+    let mut k2 = 0u64;
+    for &cla in &[0u8, 1, 0x10, 0x80] {
+        for &ins in &[0u8, 1, 2, 3, 4] {
+            for &l in &[0usize, 1, 31, 32, 63, 64, 65, 66, 97, 98, 320, 321, 7608, 7609, 7610, 10000, 65535] {
+                k2 += 1;
+                if !rep.mine(k2) {
+                    continue;
+                }
+                if !rep.begin("capacities-and-huge-data") {
+                    continue;
+                }
+                for kh_mode in 0..2u8 {
+                    let data = make_data(&mut rng2, l, kh_mode);
+                    for p1 in [3u8, 7, 8, 0] {
+                        for enc in 0..4u8 {
+                            for entry in [0u8, 4, 5, 6, 7, 8, 9, 10, 11, 12] {
+                                judge(rep, &mut cnt, cla, ins, p1, rng2.u64() as u8, &data, enc, &mut buf, entry);
+                            }
+                        }
+                    }
+                }
             }
         }
     }
